@@ -335,7 +335,9 @@ class Term:
             return 1 / (self ** (-n))
         if isinstance(n, (float, _np.floating, Fraction)) and float(n) == 0.5:
             return self.sqrt()
-        raise NotEncodable(f'power {n!r}')
+        if Term.lift(n) is None and not isinstance(n, Term):
+            return NotImplemented      # non-numeric exponent: let Python try the reflected operator / raise TypeError
+        raise NotEncodable('non-integer power')
 
     def __rpow__(self, o):
         raise NotEncodable('constant ** Term')
@@ -398,6 +400,12 @@ class Term:
     def exp(self): return _exp(self)
     def log(self): return _log(self)
     def conjugate(self): return self
+
+    @property
+    def real(self): return self
+
+    @property
+    def imag(self): return 0
     def __round__(self, n=None): raise NotEncodable('round(Term)')
 
 
